@@ -480,6 +480,125 @@ func TestCheckGraphs(t *testing.T) {
 	})
 }
 
+// ---- similarity of documents that have a history -------------------------------------------
+
+type simEdit struct {
+	Kind string `json:"kind"` // marry | add-child | set-husband | set-wife | add-name | add-birth
+	A    int    `json:"a"`
+	B    int    `json:"b"`
+	C    int    `json:"c"`
+}
+
+type simHistCase struct {
+	Doc   *gen.GraphBP `json:"doc"`
+	Edits []simEdit    `json:"edits"`
+}
+
+func simMatrix(doc *gedcom.Document) string {
+	o := gedcom.NewSimilarityOptions()
+	var b []byte
+	inds := doc.Individuals()
+	for _, x := range inds {
+		for _, y := range inds {
+			s := x.SurroundingSimilarity(y, o, true)
+			b = append(b, fmt.Sprintf("%s~%s %v %v %v %v %v %v\n", x.Pointer(), y.Pointer(), s.WeightedSimilarity(), s.ParentsSimilarity, s.IndividualSimilarity, s.SpousesSimilarity, s.ChildrenSimilarity, x.Similarity(y, o))...)
+		}
+	}
+	return string(b)
+}
+
+// checkSimHistory: similarity is a function of what the documents say, not of what was read
+// from them before: a document that was compared, then edited through the public API, scores
+// exactly as the same text decoded from nothing.
+func checkSimHistory(c simHistCase) (fl *harness.Failure, applied int) {
+	defer func() {
+		if p := recover(); p != nil {
+			fl = harness.Failf("panic", "panic: %v", p)
+		}
+	}()
+	doc, err := gedcom.NewDocumentFromString(c.Doc.Text())
+	if err != nil {
+		return nil, 0
+	}
+	_ = simMatrix(doc) // everything that is cached lazily is cached now
+	for _, e := range c.Edits {
+		inds, fams := doc.Individuals(), doc.Families()
+		if len(inds) == 0 {
+			break
+		}
+		x, y, z := inds[e.A%len(inds)], inds[e.B%len(inds)], inds[e.C%len(inds)]
+		switch e.Kind {
+		case "marry":
+			doc.AddFamilyWithHusbandAndWife(fmt.Sprintf("FN%d", applied), x, y)
+		case "add-child":
+			if len(fams) == 0 {
+				continue
+			}
+			fams[e.B%len(fams)].AddChild(z)
+		case "set-husband":
+			if len(fams) == 0 {
+				continue
+			}
+			fams[e.B%len(fams)].SetHusband(x)
+		case "set-wife":
+			if len(fams) == 0 {
+				continue
+			}
+			fams[e.B%len(fams)].SetWife(x)
+		case "add-name":
+			x.AddName(fmt.Sprintf("Added%d /Later/", e.B))
+		case "add-birth":
+			x.AddBirthDate(fmt.Sprintf("%d", 1800+e.B%100))
+		}
+		applied++
+		_ = simMatrix(doc)
+	}
+	if applied == 0 {
+		return nil, 0
+	}
+	live := simMatrix(doc)
+	fresh, err := gedcom.NewDocumentFromString(doc.String())
+	if err != nil {
+		return nil, 0
+	}
+	if want := simMatrix(fresh); live != want {
+		return harness.Failf("history-changes-similarity", "a document that was compared and then edited through the API (%v) scores\n%s\nthe same text decoded from nothing scores\n%s\ntext:\n%s", c.Edits, live, want, doc.String()), applied
+	}
+	return nil, applied
+}
+
+func TestCheckSimilarityHistory(t *testing.T) {
+	s := harness.NewSub("similarity-after-history",
+		"random family graphs (<= 5 people, <= 3 families) decoded, every pair scored (surrounding, weighted and individual similarity, which fills every lazy cache), then 1..4 edits through the public API (AddFamilyWithHusbandAndWife, AddChild, SetHusband, SetWife, AddName, AddBirthDate), scoring again after each; oracle: the full matrix of scores of the live document equals, exactly, the matrix of the same text decoded from nothing; non-trivial = an edit was applied to a document of >= 3 people")
+	s.Rapid(t, harness.Share(harness.Pick(6000, 300000)), 123, func(rt *rapid.T) {
+		c := simHistCase{Doc: gen.Graph(gen.GraphOpts{MaxPeople: 5, MaxFamilies: 3}).Draw(rt, "doc")}
+		for k := rapid.IntRange(1, 4).Draw(rt, "nedits"); k > 0; k-- {
+			c.Edits = append(c.Edits, simEdit{Kind: rapid.SampledFrom([]string{"marry", "add-child", "add-child", "set-husband", "set-wife", "add-name", "add-birth"}).Draw(rt, "kind"),
+				A: rapid.IntRange(0, 9).Draw(rt, "a"), B: rapid.IntRange(0, 9).Draw(rt, "b"), C: rapid.IntRange(0, 9).Draw(rt, "c")})
+		}
+		fl, applied := checkSimHistory(c)
+		nt := applied > 0 && len(c.Doc.People) >= 3
+		s.Eval(harness.JSON(c), nt, fmt.Sprintf("edits:%d", applied))
+		if nt {
+			s.MaybeSample(c)
+		}
+		if fl != nil && s.Report(c, fl) {
+			rt.Fatalf("%s: %s", fl.Sig, fl.Msg)
+		}
+	})
+}
+
+func init() {
+	harness.RegisterReplay("similarity-after-history", func(raw json.RawMessage) *harness.Failure {
+		var c simHistCase
+		if err := json.Unmarshal(raw, &c); err != nil {
+			return harness.Failf("bad-replay", "%v", err)
+		}
+		fl, _ := checkSimHistory(c)
+		return fl
+	})
+}
+
 func init() {
 	harness.Assume("tolerance 1e-12 only where the swap re-associates floating-point sums (lists, families, weighted surrounding similarity); string, date and individual scores must be bit-identical",
 		"'depends only on the distance' is tested by moving both dates by a multiple of 400 years (identical calendars), tolerance 1e-9 for the cancellation in the Years difference",
